@@ -8,6 +8,7 @@ from hypothesis import strategies as st
 from ..runner import Outcome
 from ..doc import Doc
 from .. import eqv
+from ..wchoice import weighted
 
 ID = 'C27'
 LEVEL = 'exploration'
@@ -47,38 +48,30 @@ KINDS = ('none', 'neg', 'existing', 'fresh', 'hole', 'repeat', 'zero', 'over', '
 
 def _idspec():
   sel = st.integers(0, 9)
-  return st.one_of(
-    st.just(['none']), st.just(['none']),
-    st.tuples(st.just('neg'), st.integers(1, 3)).map(list),
-    st.tuples(st.just('existing'), sel).map(list),
-    st.tuples(st.just('existing'), sel).map(list),
-    st.tuples(st.just('fresh'), st.integers(0, 3)).map(list),
-    st.tuples(st.just('fresh'), st.integers(0, 3)).map(list),
-    st.tuples(st.just('hole'), sel).map(list),
-    st.tuples(st.just('repeat'), sel).map(list),
-    st.just(['zero']),
-    st.tuples(st.just('over'), st.integers(0, 5)).map(list),
-    st.tuples(st.just('gap'), st.integers(0, 3000)).map(list),
-  )
+  pair = lambda kind, arg: st.tuples(st.just(kind), arg).map(list)
+  return weighted(
+    (3, st.just(['none'])), (2, pair('neg', st.integers(1, 3))), (2, pair('existing', sel)),
+    (2, pair('fresh', st.integers(0, 3))), (1, pair('hole', sel)), (1, pair('repeat', sel)), (1, st.just(['zero'])),
+    (1, pair('over', st.integers(0, 5))), (1, pair('gap', st.integers(0, 3000))))
 
 
 def _ids(tier):
+  pair = lambda kind, arg: st.tuples(st.just(kind), arg).map(list)
   common = st.lists(_idspec(), min_size=0, max_size=6)
   # mostly-valid lists so that the valid part of the space is explored in depth behind the shallow rejections
-  calm = st.lists(st.one_of(st.just(['none']), st.tuples(st.just('neg'), st.integers(1, 3)).map(list),
-                            st.tuples(st.just('fresh'), st.integers(0, 6)).map(list),
-                            st.tuples(st.just('hole'), st.integers(0, 9)).map(list),
-                            st.tuples(st.just('gap'), st.integers(0, 3000)).map(list)), min_size=1, max_size=6)
+  calm = st.lists(weighted((3, st.just(['none'])), (2, pair('neg', st.integers(1, 3))), (3, pair('fresh', st.integers(0, 6))),
+                           (2, pair('hole', st.integers(0, 9))), (1, pair('gap', st.integers(0, 3000)))),
+                  min_size=1, max_size=6)
   # exactly 1,000,000 (the largest valid id) makes every later fetch walk a million slots: keep it rare
-  rare = st.lists(st.one_of(_idspec(), st.just(['million'])), min_size=1, max_size=3)
-  return st.one_of(*([common] * 20 + [calm] * 39 + [rare]))
+  rare = st.lists(weighted((2, _idspec()), (1, st.just(['million']))), min_size=1, max_size=3)
+  return weighted((20, common), (39, calm), (1, rare))
 
 
 def strategy(tier):
   remove = st.fixed_dictionaries({'k': st.just('remove'), 'sel': st.lists(st.integers(0, 9), min_size=1, max_size=4)})
   req = st.fixed_dictionaries({'k': st.sampled_from(['add', 'bulk', 'bulk', 'bulk', 'replace']), 'ids': _ids(tier)})
   return st.fixed_dictionaries({'n0': st.integers(0, 6),
-                                'steps': st.lists(st.one_of(remove, req, req, req), min_size=1, max_size=6)})
+                                'steps': st.lists(weighted((1, remove), (3, req)), min_size=1, max_size=6)})
 
 
 # ---------------------------------------------------------------------------
